@@ -261,13 +261,31 @@ def check_destroy(rep, db, f, inst, vals):
             # the loop compared equal to this sandbox; not finding it aborts (those paths do not survive)
             ea_ = argvals(evs[er[0]])
             pos = q.iterator_position(p, ea_[0]) if len(ea_) == 1 else None
-            conds_ = q.conds_before(p, er[0])
+            # nothing mutates the list between the search and the erase on this path: size() is one value
+            conds_ = q.resolve([q.same_observer_calls(e.a) for e in evs[:er[0]] if e.kind == "ASSUME"])
             unrd = lambda t: t[1] if isinstance(t, tuple) and t[:1] == ("rd",) else t
             eq = pos is not None and pos[0] == "elem" and any(c[0] == "cmp" and c[1] == "==" and {unrd(c[2]), unrd(c[3])} == {("this",), pos[1]} for c in conds_)
             rng = [i for i, e in enumerate(evs) if e.kind == "RANGE" and is_global(e.a, "::sandbox_list")]
             locks_ = [i for i, e in enumerate(evs) if e.kind == "CALL" and q.short(e.a) in q.EXCLUSIVE_GUARDS and any(is_global(a, "::sandbox_list_lock") for a in e.b)]
             unl_ = [i for i, e in enumerate(evs) if e.kind == "UNLOCK"]
-            if eq and rng and locks_ and i0 < locks_[0] < rng[0] < er[0] < be[0] and any(u > er[0] for u in unl_) and not any(locks_[0] < u < er[0] for u in unl_):
+            # third idiom: the position is an index I - erase(list.begin() + I) where list[I] was compared equal to this sandbox
+            by_index = False
+            if not eq and len(ea_) == 1:
+                a0 = ea_[0]
+                for _ in range(4):
+                    conv = next((e for e in evs if e.kind == "CALL" and (e.extra or {}).get("ret") == a0 and q.short(e.a) in ("__normal_iterator", "__wrap_iter") and len(argvals(e)) == 1), None)
+                    if conv is None:
+                        break
+                    a0 = argvals(conv)[0]
+                if isinstance(a0, tuple) and a0[:1] == ("ucall",) and q.short(a0[2]) == "operator+" and len(a0[3]) == 1 and isinstance(a0[4], tuple) and \
+                        q.mentions(a0[4], lambda x: isinstance(x, tuple) and x[:1] == ("ucall",) and q.short(x[2]) in ("begin", "cbegin") and is_global(x[4], "::sandbox_list")):
+                    I = strip_casts(a0[3][0])
+                    by_index = any(c[0] == "cmp" and c[1] == "==" and any(
+                        isinstance(x, tuple) and x[:1] == ("ucall",) and q.short(x[2]) in ("operator[]", "at") and len(x[3]) == 1 and strip_casts(x[3][0]) == I and is_global(x[4], "::sandbox_list") and y == ("this",)
+                        for x, y in ((unrd(c[2]), c[3]), (unrd(c[3]), c[2]))) for c in conds_)
+                    if by_index:
+                        rng = [i for i, e in enumerate(evs) if e.kind == "CALL" and q.short(e.a) in ("operator[]", "at") and is_global(e.c, "::sandbox_list")]
+            if (eq or by_index) and rng and locks_ and i0 < locks_[0] < rng[0] < er[0] < be[0] and any(u > er[0] for u in unl_) and not any(locks_[0] < u < er[0] for u in unl_):
                 manual_destroy = True
             else:
                 rep.violation("R-C14-registry", site(f), "the removal does not erase, inside the unique guard and before the backend is destroyed, the entry that was compared equal to this sandbox", evs[er[0]].loc, inst)
